@@ -168,6 +168,20 @@ Definition ev_retire (p : Z) : ev := EvCli "retire" [p].
 Definition retired_before (tr : trace) (n : nat) (p : Z) : Prop :=
   exists i u, i < n /\ nth_error tr i = Some (u, ev_retire p).
 
+(** preconditions under which the retired arrays cannot overflow: at most P records in thread_list_, capacity
+    above H*P (documented, and enforced by calc_retired_size since /repo 756de95), no object retired twice *)
+Definition ovf_cond (c : cfgT) (g : G) (tr : trace) : Prop :=
+  List.length (g_list g) <= cP c /\ cH c * cP c < cR c /\ retire_once tr.
+(** a claim of a scan / of help_scan's source: its effective content is not longer than the actual one *)
+Definition shrinking_claim_on (r : nat) (cl : claim) : Prop :=
+  exists act eff, cl = ClAct r act eff /\ List.length eff <= List.length act.
+Definition collsz_ok (c : cfgT) (g : G) (sv : scanv) : Prop :=
+  match sc_todo sv with
+  | None => sc_coll sv = []
+  | Some td => List.length (sc_coll sv) + cH c * List.length td <=
+               cH c * List.length (g_list g) + match sc_cur sv with Some (_, k) => k | None => 0 end
+  end.
+
 Record Inv (c : cfgT) (g : G) (a : Aux) (tr : trace) : Prop := mkInv {
   i_slot : forall r j, slot_at tr r j = gslot g r j;
   i_zero_unowned : forall r j, r_owner (get_rec g r) = false -> gslot g r j = 0%Z;
@@ -203,5 +217,12 @@ Record Inv (c : cfgT) (g : G) (a : Aux) (tr : trace) : Prop := mkInv {
   i_retd_scan : forall t sv r s, v_scan (view a t) = Some sv -> v_rec (view a t) = Some r ->
                   last_sb tr t = Some s -> forall p, In p (effc g a r) -> retired_before tr s p;
   i_pre : forall d t p, nth_error tr d = Some (t, ev_dispose p) ->
-            exists s, last_sb (firstn d tr) t = Some s /\ retired_before tr s p
+            exists s, last_sb (firstn d tr) t = Some s /\ retired_before tr s p;
+  (* sizes: a scan has collected at most H values per record visited; under [ovf_cond] an array holds fewer than
+     R cells except while its owner is between the push that filled it and the end of the scan that follows *)
+  i_collsz : forall t sv, v_scan (view a t) = Some sv -> collsz_ok c g sv;
+  i_size : ovf_cond c g tr -> forall r,
+             List.length (r_ret (get_rec g r)) < cR c \/
+             exists t cl, In cl (v_cl (view a t)) /\ shrinking_claim_on r cl;
+  i_noovf : ovf_cond c g tr -> forall p, cnt "overflow" p tr = 0%Z
 }.
